@@ -68,6 +68,19 @@ pub fn topic_name(big: bool) -> BoxedStrategy<String> {
         .boxed()
 }
 
+/// topic filters: arbitrary strings, and the forms MQTT gives a meaning to (wildcards, shared
+/// subscriptions, $SYS)
+pub fn topic_filter(big: bool) -> BoxedStrategy<String> {
+    prop_oneof![
+        6 => topic_name(big),
+        1 => topic_name(false).prop_map(|t| format!("$share/g/{t}")),
+        1 => topic_name(false).prop_map(|t| format!("$share/{t}/#")),
+        1 => topic_name(false).prop_map(|t| format!("+/{t}/#")),
+        1 => prop::sample::select(vec!["#", "+", "$SYS/#", "$share/g/#", "$share/a/+/b", "/", "a//b", "$share/g/$SYS/x"]).prop_map(String::from),
+    ]
+    .boxed()
+}
+
 pub fn binary(small: usize, big: bool) -> BoxedStrategy<Vec<u8>> {
     (len_strategy(small, big), any::<u8>())
         .prop_map(|(l, s)| make_bytes(l, s))
@@ -265,7 +278,7 @@ pub fn sub_opts_spec() -> BoxedStrategy<SubOptsSpec> {
 
 pub fn subscribe_spec(big: bool, min_filters: usize) -> BoxedStrategy<SubscribeSpec> {
     (
-        vec((topic_name(big), sub_opts_spec()), min_filters..8),
+        vec((topic_filter(big), sub_opts_spec()), min_filters..8),
         user_props(4),
     )
         .prop_map(|(filters, up)| SubscribeSpec {
@@ -276,7 +289,7 @@ pub fn subscribe_spec(big: bool, min_filters: usize) -> BoxedStrategy<SubscribeS
 }
 
 pub fn unsubscribe_spec(big: bool, min_filters: usize) -> BoxedStrategy<UnsubscribeSpec> {
-    (vec(topic_name(big), min_filters..8), user_props(4))
+    (vec(topic_filter(big), min_filters..8), user_props(4))
         .prop_map(|(filters, up)| UnsubscribeSpec {
             filters,
             user_props: up,
